@@ -129,8 +129,23 @@ func runC14(c *Ctx) {
 }
 
 func c14Query(c *Ctx, sx *symx.Ctx, fn *ssa.Function) {
-	r := c.R
 	fk := "validation.ValidateQuery"
+	if c14Pipeline(c, sx, fn, fk) {
+		return
+	}
+	facts := c14FactsOf(c, sx, fn, fk)
+	for i, ft := range facts {
+		key := fmt.Sprintf("%s#success-%d", fk, i+1)
+		c14Judge(c, fk, key, ft.ret, ft.kinds, ft.rootIsParam, ft.root.Name(), ft.haveBlank, ft.haveLen, ft.lenConst, ft.haveMeta, ft.haveEmpty)
+		c14StripChecks(c, fk, ft.steps)
+	}
+}
+
+// c14FactsOf analyses one validation function (string) -> (string, error):
+// per accepting exit, the transformer chain from the parameter to the accepted
+// value and the failing tests that dominate the exit.
+func c14FactsOf(c *Ctx, sx *symx.Ctx, fn *ssa.Function, fk string) []c14Facts {
+	r := c.R
 	param := fn.Params[0]
 	var success []*ssa.Return
 	for _, ret := range ssau.ReturnsOf(fn) {
@@ -140,7 +155,7 @@ func c14Query(c *Ctx, sx *symx.Ctx, fn *ssa.Function) {
 	}
 	if len(success) == 0 {
 		r.Bad("O-1", fk+"#success-exit", c.P.Pos(fn.Pos()), "no return with a nil error")
-		return
+		return nil
 	}
 	// error-producing tests: an If one of whose sides cannot reach a success return
 	type test struct {
@@ -173,49 +188,11 @@ func c14Query(c *Ctx, sx *symx.Ctx, fn *ssa.Function) {
 		}
 		return true
 	}
-	for i, ret := range success {
-		key := fmt.Sprintf("%s#success-%d", fk, i+1)
+	var out []c14Facts
+	for _, ret := range success {
+		key := fk + "#success"
 		res := ssau.ResultValue(ret, 0)
 		steps, root := stringChain(res)
-		var kinds []string
-		for _, s := range steps {
-			kinds = append(kinds, s.kind)
-		}
-		chainOK := root == ssa.Value(param)
-		why := ""
-		if !chainOK {
-			why = "the returned string does not derive from the query parameter through string transformers only (root: " + root.Name() + ")"
-		}
-		for _, k := range kinds {
-			if strings.HasPrefix(k, "other:") {
-				chainOK = false
-				why = "unrecognised transformer on the way from the parameter to the result: " + strings.TrimPrefix(k, "other:")
-			}
-		}
-		need := map[string]bool{"strip": false, "trim": false, "collapse": false}
-		for _, k := range kinds {
-			if _, ok := need[k]; ok {
-				need[k] = true
-			}
-		}
-		// collapsing with strings.Fields drops leading and trailing whitespace too:
-		// a separate trim is then optional
-		if need["collapse"] {
-			need["trim"] = true
-		}
-		for _, k := range []string{"strip", "trim", "collapse"} {
-			if !need[k] && chainOK {
-				chainOK = false
-				why = "the " + k + " step is missing between the parameter and the returned value"
-			}
-		}
-		// collapse must be the outermost whitespace step (applied last): after it nothing may re-introduce spaces
-		if chainOK && len(kinds) > 0 && kinds[0] != "collapse" && kinds[0] != "trim" {
-			chainOK = false
-			why = "the last transformer applied is " + kinds[0] + ", not the whitespace collapse/trim"
-		}
-		r.Check(chainOK, "O-1", key+":derivation", c.P.Pos(ret.Pos()), "result = "+strings.Join(kinds, " <- ")+" <- query", why)
-
 		onChain := func(v ssa.Value) (bool, bool) { // (on chain, at or after strip output)
 			if v == res {
 				return true, true
@@ -286,6 +263,9 @@ func c14Query(c *Ctx, sx *symx.Ctx, fn *ssa.Function) {
 				if viaFields && v == ssa.Value(param) {
 					haveBlank = true
 				}
+				if viaFields && v == res {
+					haveEmpty = true // blank is at least empty: the returned value itself is tested
+				}
 				if subj == res {
 					haveEmpty = true
 				}
@@ -318,7 +298,7 @@ func c14Query(c *Ctx, sx *symx.Ctx, fn *ssa.Function) {
 					continue
 				}
 				// len(matches) > 0 where matches = re.FindAllString(chain value, -1)
-				if isConst && k == 0 && ((op == token.GTR && t.failEdge == 0) || (op == token.LEQ && t.failEdge == 1)) {
+				if isConst && k == 0 && ((op == token.GTR && t.failEdge == 0) || (op == token.LEQ && t.failEdge == 1) || (op == token.NEQ && t.failEdge == 0) || (op == token.EQL && t.failEdge == 1)) {
 					// len(detector(chain value)) > 0, the detector a helper that lists the
 					// characters of a constant set found in its argument
 					if hc, ok := arg.(*ssa.Call); ok {
@@ -380,33 +360,99 @@ func c14Query(c *Ctx, sx *symx.Ctx, fn *ssa.Function) {
 				}
 			}
 		}
-		r.Check(haveBlank, "O-1", key+":blank-test", c.P.Pos(ret.Pos()), "TrimSpace(query) == \"\" fails before anything else is accepted", "no dominating blank test strings.TrimSpace(query) == \"\" with an error exit")
-		r.Check(haveLen, "O-1", key+":length-test", c.P.Pos(ret.Pos()), fmt.Sprintf("len(query) > %d on the raw input fails", lenConst), "no dominating byte-length test on the raw query parameter")
-		if haveLen {
-			r.Check(lenConst == 1000, "O-2", fk+"#max-length-1000", c.P.Pos(ret.Pos()), "queries longer than 1000 bytes are rejected, 1000 accepted", fmt.Sprintf("the length limit enforced is %d bytes, the property states 1000", lenConst))
-		}
-		r.Check(haveMeta, "O-1", key+":metachar-test", c.P.Pos(ret.Pos()), "a dominating metacharacter test on a chain value fails", "no dominating metacharacter test on a value of the derivation chain")
-		r.Check(haveEmpty, "O-1", key+":final-empty-test", c.P.Pos(ret.Pos()), "the returned value itself is tested against \"\"", "the value returned is not tested for emptiness after cleaning (a query of only control characters/spaces could be accepted as \"\")")
-
-		// O-2 strip predicate, O-5 growth
+		ft := c14Facts{ret: ret, steps: steps, root: root, rootIsParam: root == ssa.Value(param), identity: res == ssa.Value(param),
+			haveBlank: haveBlank, haveLen: haveLen, lenConst: lenConst, haveMeta: haveMeta, haveEmpty: haveEmpty}
 		for _, s := range steps {
-			if s.kind != "strip" {
-				continue
-			}
-			c14Strip(c, fk, s.call)
-			// growth: input of Map must be valid UTF-8 by construction, or the length test follows
-			inSteps, _ := stringChain(s.in)
-			safe := false
-			how := ""
-			for _, is := range inSteps {
-				if is.kind == "tovalid" {
-					if rep, ok := ssau.ConstString(is.call.Common().Args[1]); ok && len(rep) <= 1 {
-						safe, how = true, fmt.Sprintf("input is strings.ToValidUTF8(…, %q): each invalid run is replaced by at most one byte", rep)
-					}
+			ft.kinds = append(ft.kinds, s.kind)
+		}
+		out = append(out, ft)
+	}
+	return out
+}
+
+// c14Facts: what one accepting exit of a validation function establishes.
+type c14Facts struct {
+	ret         *ssa.Return
+	steps       []chainStep
+	kinds       []string // transformers applied, outermost first
+	root        ssa.Value
+	rootIsParam bool
+	identity    bool // the value accepted is the parameter itself
+	haveBlank   bool
+	haveLen     bool
+	lenConst    int64
+	haveMeta    bool
+	haveEmpty   bool
+}
+
+// c14Judge reports the O-1 obligations of one accepting exit from its facts.
+func c14Judge(c *Ctx, fk, key string, ret *ssa.Return, kinds []string, rootOK bool, rootName string, haveBlank, haveLen bool, lenConst int64, haveMeta, haveEmpty bool) {
+	r := c.R
+	chainOK := rootOK
+	why := ""
+	if !chainOK {
+		why = "the returned string does not derive from the query parameter through string transformers only (root: " + rootName + ")"
+	}
+	for _, k := range kinds {
+		if strings.HasPrefix(k, "other:") {
+			chainOK = false
+			why = "unrecognised transformer on the way from the parameter to the result: " + strings.TrimPrefix(k, "other:")
+		}
+	}
+	need := map[string]bool{"strip": false, "trim": false, "collapse": false}
+	for _, k := range kinds {
+		if _, ok := need[k]; ok {
+			need[k] = true
+		}
+	}
+	// collapsing with strings.Fields drops leading and trailing whitespace too:
+	// a separate trim is then optional
+	if need["collapse"] {
+		need["trim"] = true
+	}
+	for _, k := range []string{"strip", "trim", "collapse"} {
+		if !need[k] && chainOK {
+			chainOK = false
+			why = "the " + k + " step is missing between the parameter and the returned value"
+		}
+	}
+	// collapse must be the outermost whitespace step (applied last): after it nothing may re-introduce spaces
+	if chainOK && len(kinds) > 0 && kinds[0] != "collapse" && kinds[0] != "trim" {
+		chainOK = false
+		why = "the last transformer applied is " + kinds[0] + ", not the whitespace collapse/trim"
+	}
+	r.Check(chainOK, "O-1", key+":derivation", c.P.Pos(ret.Pos()), "result = "+strings.Join(kinds, " <- ")+" <- query", why)
+
+	r.Check(haveBlank, "O-1", key+":blank-test", c.P.Pos(ret.Pos()), "TrimSpace(query) == \"\" fails before anything else is accepted", "no dominating blank test strings.TrimSpace(query) == \"\" with an error exit")
+	r.Check(haveLen, "O-1", key+":length-test", c.P.Pos(ret.Pos()), fmt.Sprintf("len(query) > %d on the raw input fails", lenConst), "no dominating byte-length test on the raw query parameter")
+	if haveLen {
+		r.Check(lenConst == 1000, "O-2", fk+"#max-length-1000", c.P.Pos(ret.Pos()), "queries longer than 1000 bytes are rejected, 1000 accepted", fmt.Sprintf("the length limit enforced is %d bytes, the property states 1000", lenConst))
+	}
+	r.Check(haveMeta, "O-1", key+":metachar-test", c.P.Pos(ret.Pos()), "a dominating metacharacter test on a chain value fails", "no dominating metacharacter test on a value of the derivation chain")
+	r.Check(haveEmpty, "O-1", key+":final-empty-test", c.P.Pos(ret.Pos()), "the returned value itself is tested against \"\"", "the value returned is not tested for emptiness after cleaning (a query of only control characters/spaces could be accepted as \"\")")
+
+}
+
+// c14StripChecks: O-2 strip predicate and O-5 growth for the strip steps of a chain.
+func c14StripChecks(c *Ctx, fk string, steps []chainStep) {
+	r := c.R
+	for _, s := range steps {
+		if s.kind != "strip" {
+			continue
+		}
+		c14Strip(c, fk, s.call)
+		// growth: input of Map must be valid UTF-8 by construction, or the length test follows
+		inSteps, _ := stringChain(s.in)
+		safe := false
+		how := ""
+		for _, is := range inSteps {
+			if is.kind == "tovalid" {
+				if rep, ok := ssau.ConstString(is.call.Common().Args[1]); ok && len(rep) <= 1 {
+					safe, how = true, fmt.Sprintf("input is strings.ToValidUTF8(…, %q): each invalid run is replaced by at most one byte", rep)
 				}
 			}
-			r.Check(safe, "O-5", fk+"#length-test-covers-output", c.P.Pos(s.call.Pos()), how, "strings.Map runs on the raw bytes after the length test: every invalid UTF-8 byte comes back as the 3-byte U+FFFD, so an accepted query can grow beyond MaxQueryLength and be rejected when validated again (e.g. 400 x \"\\xff\" -> 1200 bytes)")
 		}
+		r.Check(safe, "O-5", fk+"#length-test-covers-output", c.P.Pos(s.call.Pos()), how, "strings.Map runs on the raw bytes after the length test: every invalid UTF-8 byte comes back as the 3-byte U+FFFD, so an accepted query can grow beyond MaxQueryLength and be rejected when validated again (e.g. 400 x \"\\xff\" -> 1200 bytes)")
 	}
 }
 
@@ -1053,4 +1099,288 @@ func c14ConstStrings(c *Ctx, v ssa.Value, d int) ([]string, bool) {
 		n++
 	}
 	return out, n > 0
+}
+
+// c14Pipeline: ValidateQuery written as a loop over a package-level table of
+// step functions,
+//
+//	for _, step := range table { next, err := step(query); if err != nil { return "", err }; query = next }
+//	return query, nil
+//
+// The table is a package variable assigned once, in the package initialiser,
+// a literal list of functions, and read nowhere else. The accepted value is
+// then the composition of the steps in table order, and a query is accepted
+// only if every step accepts: each step is analysed like a validation
+// function of its own and the facts are composed — a test counts as made on
+// the raw input when every step before it hands its input on unchanged, and
+// as made on the returned value when every step after it does. Reports
+// whether this form is present (and then emits the obligations).
+func c14PipelineTable(fn *ssa.Function) (fns []*ssa.Function, isPipeline bool, why string) {
+	// the driver loop
+	var table *ssa.Global
+	var stepCall *ssa.Call
+	for _, l := range ssau.RangeLoops(fn) {
+		if l.IsMap || l.Over == nil {
+			continue
+		}
+		ld, ok := l.Over.(*ssa.UnOp)
+		if !ok {
+			continue
+		}
+		g, ok := ld.X.(*ssa.Global)
+		if !ok {
+			continue
+		}
+		ssau.ForEachInstr(fn, false, func(in ssa.Instruction) {
+			call, ok := in.(*ssa.Call)
+			if !ok || !l.InLoop(call.Block()) || call.Common().IsInvoke() || call.Common().StaticCallee() != nil || len(call.Common().Args) != 1 {
+				return
+			}
+			// the callee is the element of the table at the loop index
+			if u, ok := call.Common().Value.(*ssa.UnOp); ok {
+				if ia, ok := u.X.(*ssa.IndexAddr); ok && ia.X == l.Over && ia.Index == l.Index {
+					table, stepCall = g, call
+				}
+			}
+		})
+	}
+	if table == nil {
+		return nil, false, ""
+	}
+	bad := func(why string) ([]*ssa.Function, bool, string) { return nil, true, why }
+	// driver shape: the argument is the query variable (parameter merged with
+	// the previous step's result); a failing step returns at once; after the
+	// loop the variable is returned with a nil error
+	param := fn.Params[0]
+	q, ok := stepCall.Common().Args[0].(*ssa.Phi)
+	if !ok {
+		return bad("the step is not applied to a loop-carried variable")
+	}
+	for _, e := range q.Edges {
+		if e == ssa.Value(param) {
+			continue
+		}
+		if ex, ok := e.(*ssa.Extract); ok && ex.Tuple == ssa.Value(stepCall) && ex.Index == 0 {
+			continue
+		}
+		return bad("the query variable receives something other than the parameter and the previous step's result")
+	}
+	succ, _ := nilTests(errValue(stepCall))
+	if len(succ) == 0 {
+		return bad("the step's error is not tested")
+	}
+	nOK := 0
+	for _, ret := range ssau.ReturnsOf(fn) {
+		if ssau.IsNilConst(ssau.ResultValue(ret, 1)) {
+			nOK++
+			if ssau.ResultValue(ret, 0) != ssa.Value(q) {
+				return bad("an accepting exit returns something other than the query variable")
+			}
+			continue
+		}
+		// failing exits lie behind the step's failure
+		if !ssau.ReachableAvoidingEdges(fn, ret.Block(), succ) {
+			continue
+		}
+	}
+	if nOK != 1 {
+		return bad("there is not exactly one accepting exit")
+	}
+	// the table: assigned once, in init, a literal of function values; read only here
+	nStores := 0
+	for _, mem := range table.Pkg.Members {
+		mf, ok := mem.(*ssa.Function)
+		if !ok {
+			continue
+		}
+		ssau.ForEachInstr(mf, true, func(in ssa.Instruction) {
+			switch x := in.(type) {
+			case *ssa.Store:
+				if x.Addr != ssa.Value(table) {
+					return
+				}
+				nStores++
+				sl, ok := x.Val.(*ssa.Slice)
+				if !ok || mf.Name() != "init" {
+					nStores += 10
+					return
+				}
+				arr, ok := sl.X.(*ssa.Alloc)
+				if !ok {
+					nStores += 10
+					return
+				}
+				elems := map[int64]*ssa.Function{}
+				for _, ref := range *arr.Referrers() {
+					ia, ok := ref.(*ssa.IndexAddr)
+					if !ok {
+						continue
+					}
+					k, isC := ssau.ConstInt(ia.Index)
+					for _, r2 := range *ia.Referrers() {
+						if st, ok := r2.(*ssa.Store); ok && st.Addr == ssa.Value(ia) {
+							fv := st.Val
+							if ct, isCT := fv.(*ssa.ChangeType); isCT {
+								fv = ct.X // a named function type
+							}
+							f, isF := fv.(*ssa.Function)
+							if !isC || !isF {
+								nStores += 10
+								return
+							}
+							elems[k] = f
+						}
+					}
+				}
+				for i := int64(0); i < int64(len(elems)); i++ {
+					if elems[i] == nil {
+						nStores += 10
+						return
+					}
+					fns = append(fns, elems[i])
+				}
+			case *ssa.UnOp:
+				if x.X == ssa.Value(table) && mf != fn {
+					nStores += 10 // read elsewhere: could be changed through the alias
+				}
+			}
+		})
+	}
+	if nStores != 1 || len(fns) == 0 {
+		return bad("the table is not a package variable assigned once, in the initialiser, from a literal list of functions, and read only by the pipeline")
+	}
+	return fns, true, ""
+}
+
+func c14Pipeline(c *Ctx, sx *symx.Ctx, fn *ssa.Function, fk string) bool {
+	r := c.R
+	fns, isPipeline, why := c14PipelineTable(fn)
+	if !isPipeline {
+		return false
+	}
+	key := fk + "#success-1"
+	bad := func(why string) bool {
+		r.Bad("O-1", key+":derivation", c.P.Pos(fn.Pos()), "the step table of the validation pipeline cannot be resolved: "+why)
+		return true
+	}
+	if why != "" {
+		return bad(why)
+	}
+	// compose the steps
+	var kinds []string
+	var allSteps []chainStep
+	type stepFacts struct {
+		f  c14Facts
+		fn *ssa.Function
+	}
+	var sf []stepFacts
+	for _, g := range fns {
+		fs := c14FactsOf(c, sx, g, fk)
+		if len(fs) != 1 {
+			return bad(fmt.Sprintf("step %s has %d accepting exits (want 1)", g.Name(), len(fs)))
+		}
+		sf = append(sf, stepFacts{fs[0], g})
+	}
+	rootOK := true
+	rootName := ""
+	for i := len(sf) - 1; i >= 0; i-- { // outermost (last applied) first
+		kinds = append(kinds, sf[i].f.kinds...)
+		allSteps = append(allSteps, sf[i].f.steps...)
+		if !sf[i].f.rootIsParam {
+			rootOK, rootName = false, sf[i].fn.Name()+": "+sf[i].f.root.Name()
+		}
+	}
+	identityBefore := func(i int) bool {
+		for k := 0; k < i; k++ {
+			if !sf[k].f.identity {
+				return false
+			}
+		}
+		return true
+	}
+	identityAfter := func(i int) bool {
+		for k := i + 1; k < len(sf); k++ {
+			if !sf[k].f.identity {
+				return false
+			}
+		}
+		return true
+	}
+	var haveBlank, haveLen, haveMeta, haveEmpty bool
+	var lenConst int64
+	for i, s := range sf {
+		if s.f.haveBlank && identityBefore(i) {
+			haveBlank = true
+		}
+		if s.f.haveLen && identityBefore(i) {
+			haveLen, lenConst = true, s.f.lenConst
+		}
+		if s.f.haveMeta {
+			haveMeta = true
+		}
+		// an emptiness (or blank) test on the value the step hands on, with
+		// nothing but identity steps after it
+		if (s.f.haveEmpty || (s.f.haveBlank && s.f.identity)) && identityAfter(i) {
+			haveEmpty = true
+		}
+	}
+	var names []string
+	for _, g := range fns {
+		names = append(names, g.Name())
+	}
+	r.Analysed["validation_pipeline"] = names
+	var okRet *ssa.Return
+	for _, ret := range ssau.ReturnsOf(fn) {
+		if ssau.IsNilConst(ssau.ResultValue(ret, 1)) {
+			okRet = ret
+		}
+	}
+	c14Judge(c, fk, key, okRet, kinds, rootOK, rootName, haveBlank, haveLen, lenConst, haveMeta, haveEmpty)
+	c14StripChecks(c, fk, allSteps)
+	return true
+}
+
+// c14AcceptedKinds: per accepting exit of the validation function, the
+// transformers between the parameter and the accepted value (outermost
+// first) — through the step table when the function is a pipeline.
+func c14AcceptedKinds(fn *ssa.Function) [][]string {
+	if fns, isPipeline, why := c14PipelineTable(fn); isPipeline {
+		if why != "" {
+			return nil
+		}
+		var kinds []string
+		for i := len(fns) - 1; i >= 0; i-- {
+			n := 0
+			for _, ret := range ssau.ReturnsOf(fns[i]) {
+				if !ssau.IsNilConst(ssau.ResultValue(ret, 1)) {
+					continue
+				}
+				n++
+				steps, root := stringChain(ssau.ResultValue(ret, 0))
+				if root != ssa.Value(fns[i].Params[0]) {
+					return nil
+				}
+				for _, s := range steps {
+					kinds = append(kinds, s.kind)
+				}
+			}
+			if n != 1 {
+				return nil
+			}
+		}
+		return [][]string{kinds}
+	}
+	var out [][]string
+	for _, ret := range ssau.ReturnsOf(fn) {
+		if !ssau.IsNilConst(ssau.ResultValue(ret, 1)) {
+			continue
+		}
+		steps, _ := stringChain(ssau.ResultValue(ret, 0))
+		var kinds []string
+		for _, s := range steps {
+			kinds = append(kinds, s.kind)
+		}
+		out = append(out, kinds)
+	}
+	return out
 }
